@@ -29,6 +29,7 @@ ASSUMPTIONS = [
     'small-scope hypothesis: V <= 3 (4 in thorough), E <= 3 (4), and the stated role/constant pools',
 ]
 
+T.ALPHABETS['c03chain'] = {'concepts': ['x'], 'roles': [':r', ':r-of'], 'atoms': [], 'refs': 'none'}
 T.ALPHABETS['c03m'] = {'concepts': ['x'], 'roles': [':r', ':r-of', ':q~1'], 'atoms': ['k', '0'], 'refs': 'all'}
 
 
@@ -58,6 +59,7 @@ def shards(tier, seed):
             grouped.append({'sub': 'plain', 'pool': s['pool'], 'V': s['V'], 'E': s['E'], 'gs': [s['g']], 'models': s['models'], 'mode': s['mode'], 'bounds': s['bounds']})
             key = k
     out = grouped
+    out += T.shard_list(4, 3, 4, 'c03chain', extra={'sub': 'marked', 'bounds': ''})
     if q:
         out += T.shard_list(3, 3, 3, 'c03m', extra={'sub': 'marked', 'bounds': 'decoded TREE(3,3,3) (c03m alphabet) x all permutations (<=5 triples) / adjacent2 x every top'})
     else:
@@ -92,6 +94,7 @@ def cases(shard):
 def _roundtrip(ctx, pm, rm, name, g, top, want, label):
     import penman
     try:
+        pm.errors(g)        # a client may validate a graph before writing it (a pure call: must not matter)
         s = penman.encode(g, top=top, model=pm, indent=None)
     except Exception as e:      # noqa: BLE001
         ctx.fail(f'{label}: encode raised {type(e).__name__} under {name}', observed=str(e)[:200], expected='text')
